@@ -11,6 +11,10 @@ SRC = {  # id -> (worktree, n)
     "C01-1": ("/tmp/wt-C05", 1), "C02-1": ("/tmp/wt-C05", 2), "C05-1": ("/tmp/wt-C05", 3),
     "C09-1": ("/tmp/wt-C09", 1), "C09-2": ("/tmp/wt-C09", 2), "C09-3": ("/tmp/wt-C09", 3),
     "C03-1": ("/tmp/wt-C03", 1), "C03-2": ("/tmp/wt-C03", 2), "C03-3": ("/tmp/wt-C03", 3),
+    # second round (after C04 / C07 / C08 / C14 / C17 were built)
+    "C04-1": ("/tmp/wt2-C04", 1), "C04-2": ("/tmp/wt2-C04", 2), "C07-1": ("/tmp/wt2-C07", 1), "C07-2": ("/tmp/wt2-C07", 2),
+    "C08-1": ("/tmp/wt2-C08", 1), "C08-2": ("/tmp/wt2-C08", 2), "C14-1": ("/tmp/wt2-C14", 1), "C14-2": ("/tmp/wt2-C14", 2),
+    "C17-1": ("/tmp/wt2-C17", 1), "C17-2": ("/tmp/wt2-C17", 2),
 }
 RESULTS = json.load(open(os.path.join(os.path.dirname(__file__), "seed_results.json")))
 
